@@ -98,6 +98,11 @@ pub trait Fam: 'static {
     fn extra<'a>(_s: &Self::Setup, _d: &'a Self::Datum, _ctx: &mut Ctx, _step: usize) -> Res {
         Ok(())
     }
+    /// small setups for the exhaustion sweep (every setup x every step pattern, completely
+    /// enumerated; the Miri tier runs these because its random sample is necessarily thin)
+    fn sweep_setups() -> Vec<Self::Setup> {
+        Vec::new()
+    }
     /// extra check on a fork: drain it through a macro entry point (ranges: for_each!)
     fn fork_extra<'a>(_k: &Self::K<'a>, _m: &Self::M<'a>, _d: &'a Self::Datum, _ctx: &mut Ctx, _step: usize) -> Res {
         Ok(())
@@ -260,7 +265,85 @@ impl<F: Fam> World for IterWorld<F> {
             &[]
         }
     }
+    fn sweep_len() -> u64 {
+        (F::sweep_setups().len() * SWEEP_PATTERNS) as u64
+    }
+    fn sweep_names() -> Vec<String> {
+        let setups = F::sweep_setups();
+        let mut v = Vec::new();
+        for s in &setups {
+            for p in 0..SWEEP_PATTERNS {
+                v.push(format!("{}/{:?}/pattern={}", F::WORLD, s, SWEEP_PATTERN_NAMES[p]));
+            }
+        }
+        v
+    }
+    fn sweep_some(indices: &[u64]) -> Vec<(u64, Self::Case)> {
+        let setups = F::sweep_setups();
+        indices
+            .iter()
+            .filter_map(|i| {
+                let si = *i as usize / SWEEP_PATTERNS;
+                setups.get(si).map(|s| (*i, sweep_plan::<F>(s.clone(), *i as usize % SWEEP_PATTERNS)))
+            })
+            .collect()
+    }
+    fn sweep_case(i: u64) -> Option<Self::Case> {
+        let setups = F::sweep_setups();
+        let si = i as usize / SWEEP_PATTERNS;
+        let pat = i as usize % SWEEP_PATTERNS;
+        let setup = setups.get(si)?.clone();
+        Some(sweep_plan::<F>(setup, pat))
+    }
 }
+
+fn sweep_plan<F: Fam>(setup: F::Setup, pat: usize) -> ICase<F::Setup> {
+    {
+        let d = F::datum(&setup);
+        let m = F::m_new(&setup, &d);
+        let r = F::m_remaining(&m).min(40);
+        let r = if F::m_exhaustible(&m) { r + 2 } else { r.min(6) };
+        let back_ok = F::m_can_back(&m);
+        let rev_ok = F::m_can_rev(&m);
+        let h = 0;
+        let mut plan: Vec<IOp> = vec![IOp::Observe { h }];
+        let step = |front: bool| if front || !back_ok { IOp::Next { h } } else { IOp::NextBack { h } };
+        match pat {
+            0 => plan.extend((0..r).map(|_| step(true))),
+            1 => plan.extend((0..r).map(|_| step(false))),
+            2 => plan.extend((0..r).map(|k| step(k % 2 == 0))),
+            3 => {
+                plan.extend((0..r / 2).map(|_| step(true)));
+                plan.push(IOp::Observe { h });
+                plan.extend((0..r).map(|_| step(false)));
+            }
+            4 => {
+                plan.extend((0..r / 2).map(|_| step(false)));
+                plan.push(IOp::Copy { h });
+                plan.extend((0..r).map(|_| step(true)));
+                plan.extend((0..r).map(|k| if k % 2 == 0 || !back_ok { IOp::Next { h: 1 } } else { IOp::NextBack { h: 1 } }));
+            }
+            _ => {
+                if rev_ok {
+                    plan.push(IOp::Rev { h });
+                }
+                plan.extend((0..r).map(|k| step(k % 3 != 2)));
+                if rev_ok {
+                    plan.push(IOp::Rev { h });
+                }
+                plan.push(IOp::Observe { h });
+                plan.push(step(true));
+                plan.push(step(false));
+            }
+        }
+        plan.push(IOp::Observe { h });
+        drop(m);
+        ICase { setup, plan }
+    }
+}
+
+pub const SWEEP_PATTERNS: usize = 6;
+pub const SWEEP_PATTERN_NAMES: [&str; 6] = ["front-to-exhaustion+2", "back-to-exhaustion+2", "alternate", "front-half-then-back", "back-half-fork-then-both", "reversed-mixed"];
 
 fn exec<F: Fam>(case: &ICase<F::Setup>, ctx: &mut Ctx) -> Res {
     let d = F::datum(&case.setup);
